@@ -1,36 +1,332 @@
-"""Registry: which obligations decide which property (see DESIGN.md section 4)."""
+"""Registry: which obligations decide which property (DESIGN.md section 4).
 
-T = "tripledh::"
-O = "opaque::"
-M = "messages::"
-E = "envelope::"
+Each property has one or more ALTERNATIVES (a property enforced redundantly by the code holds when ANY alternative is fully
+discharged).  An alternative lists labelled contract clauses on real functions, theorem harnesses / lemmas of verus/theorems.rs,
+Kani harnesses, and optionally `body_of` (panic-freedom obligations inside function bodies).
+('fn', '*') = every labelled clause of fn except the alternative's `exclude` labels.
+"""
+G = "group::"; K = "keypair::"; T = "tripledh::"; O = "opaque::"; M = "messages::"; E = "envelope::"; ER = "errors::"
 
-# theorems that carry hypotheses (requires) and therefore get a vacuity twin check
-VACUITY_THEOREMS = set()
-# bounded Kani harnesses and their bounds (everything else is loop-free over the full input domain)
+# labels that state a REJECTION / error behaviour (not needed for "honest runs succeed" and value properties)
+SOUND = {"sound", "sound_env", "sound_mac", "errkind", "strict", "nonid", "ids_err", "ctx_err", "mode_err", "ksf_err", "pw_len", "len_err",
+         "err_S", "err_pk", "err_dh", "reflect", "nocustom", "kind", "err", "de_err", "pk_err", "ok_only", "atleast", "exact"}
+
+ALL_FNS = [
+    ER + "InternalError::into_custom", ER + "ProtocolError::into_custom", ER + "check_slice_size", ER + "check_slice_size_atleast",
+    "ksf::Identity::hash", G + "i2osp_2", G + "KeGroup::derive_auth_keypair",
+    K + "KeyPair::public", K + "KeyPair::private", K + "KeyPair::from_private_key", K + "KeyPair::from_private_key_slice", K + "KeyPair::generate_random",
+    K + "PrivateKey::diffie_hellman", K + "PrivateKey::public_key", K + "PrivateKey::serialize", K + "PrivateKey::deserialize", K + "PublicKey::deserialize", K + "PublicKey::serialize",
+    T + "generate_nonce", T + "hkdf_expand_label_extracted", T + "hkdf_expand_label", T + "derive_secrets", T + "derive_3dh_keys",
+    T + "TripleDh::generate_ke1", T + "TripleDh::generate_ke2", T + "TripleDh::generate_ke3", T + "TripleDh::finish_ke",
+    T + "Ke1State::deserialize", T + "Ke1State::serialize", T + "Ke1Message::deserialize", T + "Ke1Message::serialize", T + "Ke2State::deserialize", T + "Ke2State::serialize",
+    T + "Ke2Message::deserialize", T + "Ke2Message::serialize", T + "Ke2Message::to_bytes_without_mac", T + "Ke3Message::deserialize", T + "Ke3Message::serialize",
+    E + "InnerEnvelopeMode::try_from", E + "construct_aad", E + "Envelope::seal_raw", E + "Envelope::open_raw", E + "build_inner_envelope_internal", E + "recover_keys_internal",
+    E + "Envelope::seal", E + "Envelope::open", E + "Envelope::dummy", E + "Envelope::hmac_key_size", E + "Envelope::len", E + "Envelope::serialize", E + "Envelope::deserialize",
+    M + "RegistrationRequest::serialize", M + "RegistrationRequest::deserialize", M + "RegistrationResponse::serialize", M + "RegistrationResponse::deserialize",
+    M + "RegistrationUpload::serialize", M + "RegistrationUpload::deserialize", M + "RegistrationUpload::dummy", M + "CredentialRequest::serialize", M + "CredentialRequest::serialize_iter",
+    M + "CredentialRequest::deserialize", M + "CredentialResponse::serialize", M + "CredentialResponse::serialize_without_ke", M + "CredentialResponse::deserialize",
+    M + "CredentialFinalization::serialize", M + "CredentialFinalization::deserialize",
+    O + "MaskedResponse::serialize", O + "MaskedResponse::deserialize", O + "MaskedResponse::iter", O + "bytestrings_from_identifiers", O + "blind", O + "get_password_derived_key",
+    O + "oprf_key_from_seed", O + "mask_response", O + "unmask_response", O + "ServerSetup::new_with_key", O + "ServerSetup::new", O + "ServerSetup::serialize", O + "ServerSetup::deserialize",
+    O + "ServerSetup::keypair", O + "ClientRegistration::serialize", O + "ClientRegistration::deserialize", O + "ClientRegistration::start", O + "ClientRegistration::finish",
+    O + "ServerRegistration::serialize", O + "ServerRegistration::deserialize", O + "ServerRegistration::start", O + "ServerRegistration::finish", O + "ServerRegistration::dummy",
+    O + "ClientLogin::serialize", O + "ClientLogin::deserialize", O + "ClientLogin::start", O + "ClientLogin::finish", O + "ServerLogin::serialize", O + "ServerLogin::deserialize",
+    O + "ServerLogin::start", O + "ServerLogin::finish", O + "ClientRegistrationFinishParameters::new", O + "ClientLoginFinishParameters::new",
+]
+DECODERS = [f for f in ALL_FNS if f.endswith("::deserialize")]
+ENCODERS = [f for f in ALL_FNS if f.endswith("::serialize")]
+
+
+def star(fns):
+    return [(f, "*") for f in fns]
+
+
+VACUITY_THEOREMS = {
+    "thm_c01_honest_run", "thm_c02_reject_env", "thm_c02_reject_mac", "thm_c02_real_env", "thm_c02_real_mac", "thm_transcript_agreement", "thm_c03_exact", "thm_c03_reload",
+    "thm_c04_mac_only", "thm_c04_fields", "thm_c05_login_binding", "thm_c05_envelope_binding", "thm_c07_client_matched", "thm_c07_server_matched", "thm_c07_distinct_sessions",
+    "thm_c08_fake_vs_real", "thm_c13_server_registration", "thm_c13_client_registration", "thm_c13_client_login", "thm_c13_server_setup", "thm_c14_blind_independent",
+    "thm_c15_default_equiv", "thm_c15_ksf_bound", "thm_c16_separated", "thm_c16_label_separation", "thm_c17_server_login_deterministic", "thm_c18_transparent",
+}
 KANI_BOUNDS = {}
 
+IDEAL = "idealisation hypotheses are explicit `requires` of the theorems, never axioms: "
+A_NEGL = "negligible-probability exclusions (preconditions): per-credential OPRF key != 1 (else the reflected-value check fires), DeriveDiffieHellmanKeyPair does not exhaust its 256 counters, the KSF succeeds, the OPRF accepts the password"
+A_PRELUDE = "assumed dependency contracts (verus/prelude.rs): HKDF/HMAC/Hash are functions with the stated output lengths; Mac::verify accepts exactly the full tag; voprf blind/finalize/blind_evaluate compute RFC 9497 mode 0; group laws (smul commutes, r*r^-1 cancels, DH symmetry); codecs round-trip on library-produced values"
+
 PROPS = {}
+
+PROPS["C01"] = {
+    "alternatives": [{
+        "name": "honest-run",
+        "clauses": star(ALL_FNS), "exclude": SOUND,
+        "theorems": ["thm_c01_honest_run", "lemma_oprf_unblind", "lemma_oprf_output_blind_independent", "lemma_unmask", "lemma_xor_involution"],
+    }],
+    "witness": "c01",
+    "explanation": "thm_c01_honest_run composes the eight real API steps (production cfg branch of blind(), abstract suite lengths and primitives = all 20 suites at once) for arbitrary password / credential id / identities / context / KSF / tapes and proves: every step Ok, equal session keys, login export key == registration export key, reported server key == setup key. Every value/completeness clause of every function under contract is required; rejection-only clauses are not (C01 still holds without them).",
+    "assumptions": [A_NEGL, A_PRELUDE, "lengths: password, identities, context <= 65535 bytes (part of the statement)"],
+}
+
+PROPS["C02"] = {
+    "alternatives": [
+        {"name": "envelope-gate",
+         "clauses": [(O + "ClientLogin::finish", "rp"), (O + "ClientLogin::finish", "sound_env"), (O + "ClientLogin::finish", "errkind"), (O + "ClientLogin::finish", "reflect"),
+                     (O + "get_password_derived_key", "*"), (O + "unmask_response", "*"), (E + "Envelope::open", "sound"), (E + "Envelope::open", "errkind"), (E + "Envelope::open", "rfc"),
+                     (E + "Envelope::open", "ids_err"), (E + "Envelope::open", "nocustom"), (E + "Envelope::open_raw", "*"), (E + "recover_keys_internal", "*"), (O + "bytestrings_from_identifiers", "*"), (E + "construct_aad", "*"),
+                     (E + "Envelope::deserialize", "*"), (K + "PublicKey::deserialize", "*"), (O + "blind", "*")],
+         "theorems": ["lemma_c02_rp_differs", "thm_c02_reject_env", "thm_c02_real_env", "lemma_frame_split"]},
+        {"name": "server-mac-gate",
+         "clauses": [(O + "ClientLogin::finish", "rp"), (O + "ClientLogin::finish", "sound_mac"), (O + "ClientLogin::finish", "errkind"), (O + "ClientLogin::finish", "reflect"),
+                     (O + "get_password_derived_key", "*"), (O + "unmask_response", "*"), (E + "recover_keys_internal", "*"), (T + "TripleDh::generate_ke3", "*"), (T + "derive_3dh_keys", "*"),
+                     (T + "hkdf_expand_label_extracted", "*"), (T + "hkdf_expand_label", "*"), (T + "derive_secrets", "*"), (O + "blind", "*")],
+         "theorems": ["lemma_c02_rp_differs", "thm_c02_reject_mac", "thm_c02_real_mac", "lemma_frame_split"]},
+    ],
+    "witness": "c02",
+    "explanation": "Proved: (a) the randomized password is an injective function of the password (length-prefixed Finalize input, Hash/Extract collision-freedom as hypotheses) so prefixes, extensions, empty-vs-non-empty, last-byte changes all give a different key; (b) the real ClientLogin::finish accepts only if the envelope gate AND the server-MAC gate hold for the key derived from the LOGIN password; (c) when a gate is false the result is Err(InvalidLoginError) and, by the result type, no key material. The property holds if either gate is enforced (alternatives).",
+    "assumptions": [A_NEGL, A_PRELUDE],
+    "hypotheses": [IDEAL + "cf_hash, cf_extract (rp injective); h_env_fresh / h_mac_fresh: a tag valid under a key derived from a DIFFERENT randomized password does not occur in XOR-garbled data / the honest server MAC does not verify under foreign key material (random-oracle argument, stated as named assumption)"],
+}
 
 PROPS["C03"] = {
     "alternatives": [{
         "name": "mac-gate",
         "clauses": [
-            (T + "TripleDh::finish_ke", "sound"), (T + "TripleDh::finish_ke", "complete"), (T + "TripleDh::finish_ke", "key"), (T + "TripleDh::finish_ke", "errkind"),
-            (O + "ServerLogin::finish", "*"),
+            (T + "TripleDh::finish_ke", "*"), (O + "ServerLogin::finish", "*"),
             (T + "Ke3Message::deserialize", "*"), (M + "CredentialFinalization::deserialize", "*"),
             (T + "Ke2State::deserialize", "*"), (T + "Ke2State::serialize", "*"), (O + "ServerLogin::deserialize", "*"), (O + "ServerLogin::serialize", "*"),
-            (T + "TripleDh::generate_ke2", "rfc"), (O + "ServerLogin::start", "rfc"),
-            ("errors::check_slice_size", "*"),
+            (T + "TripleDh::generate_ke2", "rfc"), (O + "ServerLogin::start", "rfc"), (ER + "check_slice_size", "*"),
         ],
         "theorems": ["thm_c03_exact", "thm_c03_expected_tag", "thm_c03_reload"],
     }],
     "witness": "c03",
-    "explanation": "ServerLogin::finish(st, m) is Ok <=> m == HMAC(st.km3, st.hashed_transcript), proved for all states and all byte strings m on the real finish_ke / ServerLogin::finish / decoders; the expected tag of a state produced by ServerLogin::start is the RFC 9807 client MAC of that session's transcript.",
-    "assumptions": [
-        "hmac::Mac::verify accepts exactly the full-length tag HMAC(key, msg) (prelude contract; constant-time-ness not modelled)",
-        "that tags of other sessions are different byte strings needs collision-freedom of HMAC/Hash (not asserted; exact characterisation is proved instead)",
-    ],
+    "explanation": "ServerLogin::finish(st, m) is Ok <=> m == HMAC(st.km3, st.hashed_transcript), proved for all states (real or fake record) and all byte strings m on the real finish_ke / ServerLogin::finish / decoders; on Err the error is InvalidLoginError and no key is returned; the expected tag of a state produced by ServerLogin::start is the RFC 9807 client MAC of that session's transcript; a reloaded state expects the same tag.",
+    "assumptions": ["hmac::Mac::verify accepts exactly the full-length tag HMAC(key, msg) (prelude contract; constant-time-ness not modelled)",
+                    "that tags of other sessions are different byte strings needs collision-freedom of HMAC/Hash (C07 states it); the exact characterisation is what is proved here"],
+}
+
+PROPS["C04"] = {
+    "alternatives": [{
+        "name": "server-mac-over-transcript",
+        "clauses": [(O + "ClientLogin::finish", "reflect"), (O + "ClientLogin::finish", "sound_mac"), (O + "ClientLogin::finish", "errkind"), (O + "ClientLogin::finish", "rp"),
+                    (T + "TripleDh::generate_ke3", "*"), (T + "derive_3dh_keys", "*"), (T + "hkdf_expand_label_extracted", "*"), (T + "hkdf_expand_label", "*"), (T + "derive_secrets", "*"),
+                    (M + "CredentialResponse::deserialize", "*"), (M + "CredentialResponse::serialize_without_ke", "*"), (M + "CredentialRequest::serialize_iter", "*"),
+                    (T + "Ke2Message::to_bytes_without_mac", "*"), (T + "Ke1Message::serialize", "*"), (O + "MaskedResponse::iter", "*"), (T + "Ke2Message::deserialize", "*"), (O + "MaskedResponse::deserialize", "*")],
+        "theorems": ["thm_c04_mac_only", "thm_c04_fields", "thm_transcript_agreement", "lemma_preamble_injective", "lemma_frame_split", "lemma_fixed_split"],
+    }],
+    "witness": "c04",
+    "explanation": "The real finish step accepts only if the MAC field equals the RFC server MAC over the client's own transcript (request bytes, OPRF evaluation, masking nonce, masked credentials, server nonce, server ephemeral key, context, identities). thm_c04_mac_only: changing only the MAC is rejected (exact). thm_c04_fields: with the MAC unchanged, acceptance forces every transcript field to equal the server's and the request to be this client's (every single-byte substitution at every offset, every splice leaving one of the two parts genuine).",
+    "assumptions": [A_PRELUDE],
+    "hypotheses": [IDEAL + "cf_hash, cf_hmac. Responses in which fields AND MAC are replaced consistently need MAC unforgeability (statement about what an adversary can compute): not decided here"],
+}
+
+PROPS["C05"] = {
+    "alternatives": [{
+        "name": "framed-binding",
+        "clauses": [(O + "bytestrings_from_identifiers", "*"), (E + "construct_aad", "*"), (E + "Envelope::seal", "rfc"), (E + "Envelope::seal", "ok_iff"), (E + "Envelope::seal_raw", "*"),
+                    (E + "Envelope::open", "sound"), (E + "Envelope::open", "rfc"), (E + "Envelope::open_raw", "sound"), (T + "TripleDh::generate_ke2", "rfc"), (T + "TripleDh::generate_ke2", "ctx_err"),
+                    (T + "TripleDh::generate_ke3", "sound"), (T + "TripleDh::generate_ke3", "ctx_err"), (O + "oprf_key_from_seed", "*"), (O + "ServerRegistration::start", "eval"), (O + "ServerLogin::start", "rfc"),
+                    (O + "ClientLogin::finish", "sound_env"), (O + "ClientLogin::finish", "sound_mac"), (O + "ClientRegistration::finish", "rfc")],
+        "theorems": ["thm_c05_login_binding", "thm_c05_envelope_binding", "thm_transcript_agreement", "lemma_preamble_injective", "lemma_cleartext_injective", "lemma_frame_split", "lemma_fixed_split", "lemma_i2osp2_inj", "lemma_i2osp2"],
+        "kani": {"quick": [("leaf", "i2osp_u2_exact"), ("leaf", "i2osp_u1_exact")], "thorough": [("leaf", "input_from_iter_bounded"), ("leaf", "input_owned_iter_bounded"), ("leaf", "input_label_arrays_bounded")]},
+    }],
+    "witness": "c05",
+    "explanation": "Identities default to the serialized static keys (None == explicit public-key spelling, byte for byte); identities and context enter the envelope MAC and the 3DH transcript 2-byte-length-prefixed on both sides; the framing is injective (lemmas over ALL byte strings incl. the 255/256 and 65535/65536 boundaries; I2OSP itself proved by Kani over all usize). Acceptance of a server MAC forces equal context and effective identities; passing the envelope gate forces the identities and server key sealed at registration; the OPRF key is Expand(seed, cred_id || 'OprfKey') on both registration and login.",
+    "assumptions": [A_PRELUDE, "credential-identifier mismatch behaves like a wrong password (different OPRF key): relies on C02's named assumption"],
+    "hypotheses": [IDEAL + "cf_hash, cf_hmac"],
+}
+
+PROPS["C06"] = {
+    "alternatives": [{
+        "name": "envelope-binds-server-key",
+        "clauses": [(O + "ServerRegistration::start", "pk"), (O + "ServerSetup::new", "*"), (O + "ServerSetup::new_with_key", "*"), (K + "KeyPair::generate_random", "*"), (K + "KeyPair::public", "*"),
+                    (K + "KeyPair::private", "*"), (O + "ClientRegistration::finish", "rfc"), (O + "ServerLogin::start", "rfc"), (O + "ClientLogin::finish", "pk_out"), (O + "ClientLogin::finish", "sound_env"),
+                    (E + "Envelope::open", "sound"), (E + "Envelope::open_raw", "sound"), (E + "Envelope::seal", "rfc"), (O + "unmask_response", "*"), (O + "mask_response", "*"), (K + "PrivateKey::public_key", "*")],
+        "theorems": ["thm_c05_envelope_binding", "thm_c01_honest_run", "lemma_cleartext_injective", "lemma_unmask"],
+    }],
+    "witness": "c06",
+    "explanation": "The key reported at registration is the setup's public key; login masks sk.public_key() (not a stored copy); the client returns the unmasked key; passing the envelope gate on a record sealed under spk_reg forces the live key to equal spk_reg (HMAC collision-freedom + injective CleartextCredentials). Single mechanism: the envelope MAC.",
+    "assumptions": [A_PRELUDE, "KeGroup::deserialize_pk is canonical (trait-level contract; discharged per group by Kani, see C10/C11)"],
+    "hypotheses": [IDEAL + "cf_hmac"],
+}
+
+PROPS["C07"] = {
+    "alternatives": [{
+        "name": "matched-conversations",
+        "clauses": [(O + "ClientLogin::finish", "sound_mac"), (O + "ClientLogin::finish", "rfc"), (O + "ServerLogin::start", "rfc"), (O + "ServerLogin::finish", "*"), (T + "TripleDh::finish_ke", "*"),
+                    (T + "TripleDh::generate_ke1", "*"), (T + "TripleDh::generate_ke2", "rfc"), (T + "TripleDh::generate_ke2", "tape"), (T + "TripleDh::generate_ke3", "sound"), (T + "TripleDh::generate_ke3", "rfc"),
+                    (O + "ClientLogin::start", "*"), (T + "generate_nonce", "*"), (K + "KeyPair::generate_random", "*")],
+        "theorems": ["thm_c07_client_matched", "thm_c07_server_matched", "thm_c07_distinct_sessions", "thm_transcript_agreement", "lemma_km2_injective", "lemma_preamble_injective", "thm_c03_exact"],
+    }],
+    "witness": "c07",
+    "explanation": "Every API step is a function of its arguments and the caller's tape (no statics, no interior state), so a history over a shared server is a set of calls and the routing adversary only chooses which honestly produced message goes to which call. Proved for ARBITRARY pairs of sessions: client acceptance of a MAC some server session computed => same request, context, identities, response fields, same key-schedule input and session key; server acceptance of a finalization some client computed => that client verified this very server MAC over this very transcript; sessions with different nonces / ephemeral keys / requests have different session keys; nonces and ephemeral keys are fresh tape segments per start call.",
+    "assumptions": [A_PRELUDE, "reduction from 'all interleavings' to pairwise statements is by statelessness (argument, DESIGN.md C07)", "messages FORGED by the adversary (not produced by any honest session) need MAC unforgeability: not decided", "probability of nonce collision on independent tapes: not decided"],
+    "hypotheses": [IDEAL + "cf_hash, cf_hmac, cf_expand"],
+}
+
+PROPS["C08"] = {
+    "alternatives": [{
+        "name": "same-path-after-substitution",
+        "clauses": [(O + "ServerLogin::start", "*"), (M + "RegistrationUpload::dummy", "*"), (O + "ServerRegistration::dummy", "*"), (E + "Envelope::dummy", "*"), (O + "mask_response", "*"),
+                    (O + "oprf_key_from_seed", "*"), (O + "ClientLogin::finish", "errkind"), (O + "ClientLogin::finish", "sound_env"), (T + "TripleDh::finish_ke", "sound"), (T + "TripleDh::finish_ke", "errkind"),
+                    (O + "ServerLogin::finish", "*"), (M + "CredentialResponse::serialize", "*")],
+        "theorems": ["thm_c08_fake_vs_real", "thm_c02_real_env", "thm_c03_exact", "lemma_all_zero_concat"],
+    }],
+    "witness": "c08",
+    "explanation": "ServerLogin::start's postcondition for password_file == None is the SAME spec function as for Some(rec) with rec := (fake public key, masking key = next Nh tape bytes, all-zero envelope): same evaluation smul(request, OprfKey(seed, cred_id)) independent of record and static key, same types hence same lengths, masking nonce / server nonce / ephemeral key from consecutive disjoint tape segments; both calls succeed or fail together. Client side: a failing envelope gate yields InvalidLoginError (as for a wrong password); server side: C03.",
+    "assumptions": [A_PRELUDE, "computational indistinguishability ('unpredictably') is not decidable by contracts; the deterministic content is what is proved", "the all-zero envelope under a random masking key does not pass the envelope gate: C02's named assumption"],
+}
+
+PROPS["C09"] = {
+    "alternatives": [{
+        "name": "rfc-oracle",
+        "clauses": star(ALL_FNS), "exclude": {"strict"},
+        "theorems": ["lemma_i2osp1", "lemma_i2osp2", "lemma_preamble_flat", "thm_c03_expected_tag"],
+        "kani": {"quick": [("leaf", "i2osp_u2_exact"), ("leaf", "i2osp_u1_exact")], "thorough": [("api", "x25519_derive_is_clamp")]},
+    }],
+    "witness": "c09",
+    "explanation": "Every output of every step (six messages, password file, export key, session key, server and client states as witnesses of the random choices) is proved equal to the RFC 9807 / RFC 9497 formula of verus/spec_rfc.rs applied to the inputs and to the tape segments consumed, in the order consumed; labels and constants are extracted from the source every run. Oracle transcription is cross-checked against the RFC vectors shipped in the repo by the replay crate (testing).",
+    "assumptions": [A_PRELUDE, "hkdf/hmac/sha2/voprf implement RFC 5869 / 2104 / 9497 (assumed; sampled against RFC vectors)", "Nseed = Nsk of the KE group (repo) where RFC 9807 fixes 32; per the property ('that suite's own lengths') not flagged"],
+}
+
+PROPS["C13"] = {
+    "alternatives": [{
+        "name": "native-roundtrip",
+        "clauses": star(DECODERS + ENCODERS + [ER + "check_slice_size", ER + "check_slice_size_atleast", O + "MaskedResponse::deserialize"]), "exclude": {"strict"},
+        "theorems": ["thm_c13_server_registration", "thm_c13_client_registration", "thm_c13_client_login", "thm_c13_server_setup", "thm_c03_reload"],
+    }],
+    "witness": "c13",
+    "explanation": "For the five persistable states, deserialize(serialize(x)) is Ok and equal to x field by field (a dropped or reordered field fails); every later step is a function of the state VALUE (determinism, C17), so a reloaded state continues identically. Envelope.mode is not serialized: it is Internal for every envelope that reaches a password file (seal.rfc).",
+    "assumptions": [A_PRELUDE, "serde: the four hand-written key impls route through KG::deserialize_*/serialize_* (read, not modelled); derived serde impls are generated code with no function body to put a contract on — assumed field-wise; exercised by the replay crate (bincode / JSON reload at every boundary) as testing"],
+}
+
+PROPS["C14"] = {
+    "alternatives": [{
+        "name": "oblivious-keyed",
+        "clauses": [(O + "blind", "*"), (O + "ClientRegistration::start", "*"), (O + "ClientLogin::start", "*"), (O + "ServerRegistration::start", "*"), (O + "ServerLogin::start", "rfc"),
+                    (O + "oprf_key_from_seed", "*"), (O + "get_password_derived_key", "*"), (O + "ClientRegistration::finish", "rfc")],
+        "theorems": ["thm_c14_blind_independent", "thm_c14_request_varies", "lemma_oprf_unblind", "lemma_oprf_output_blind_independent"],
+    }],
+    "witness": "c14",
+    "explanation": "The production (cfg(not(test))) blind() calls voprf's blind with a scalar drawn from the caller's tape: request = smul(H2G(pw), scalar_of_tape(segment)); randomized password and masking key are independent of the blind (OPRF algebra); the evaluation is smul(request, OprfKey(seed, cred_id)) at registration and login, with no dependence on static key or password file; the key is DeriveKeyPair(Expand(seed, cred_id || 'OprfKey')).",
+    "assumptions": [A_PRELUDE, "'unrelated results' for different seeds / credential ids / passwords beyond inequality is cryptographic"],
+}
+
+PROPS["C15"] = {
+    "alternatives": [{
+        "name": "ksf-selection-binding",
+        "clauses": [(O + "get_password_derived_key", "*"), (O + "ClientRegistration::finish", "ksf_err"), (O + "ClientRegistration::finish", "rfc"), (O + "ClientLogin::finish", "ksf_err"), (O + "ClientLogin::finish", "rp"),
+                    ("ksf::Identity::hash", "*")],
+        "theorems": ["thm_c15_default_equiv", "thm_c15_ksf_bound"],
+    }],
+    "witness": "c15",
+    "explanation": "The hardened value is ksf_spec(params.ksf or the suite default, oprf_output), concatenated into Extract; both finish steps forward params.ksf; a KSF error is returned as Err(LibraryError(e)); Some(&default) == None; different stretching results give different randomized passwords. The contract pins the VALUE, so ksf(ksf(y)) or no call are caught; a redundant call whose result is discarded is unobservable.",
+    "assumptions": [A_PRELUDE, "Ksf::hash is a function of (self, input); Default::default() is deterministic (rule R8 shim)", "Argon2 adapter (feature-gated, calls into argon2) is not under contract: assumed Err => KsfError, output length = input length"],
+    "hypotheses": [IDEAL + "cf_extract (binding)"],
+}
+
+PROPS["C16"] = {
+    "alternatives": [{
+        "name": "export-key",
+        "clauses": [(E + "Envelope::seal_raw", "*"), (E + "Envelope::open_raw", "export"), (E + "Envelope::seal", "rfc"), (E + "Envelope::seal", "tape"), (E + "Envelope::open", "rfc"),
+                    (O + "ClientRegistration::finish", "rfc"), (O + "ClientLogin::finish", "rfc")],
+        "theorems": ["thm_c01_honest_run", "thm_c16_separated", "thm_c16_label_separation"],
+    }],
+    "witness": "c16",
+    "explanation": "export_key == Expand(randomized_pwd, nonce || 'ExportKey', Nh) at seal and at open, hence equal for every login of one registration regardless of session randomness / context (thm_c01); a new registration draws a new nonce from a fresh tape segment => different key; separated from auth key and masking key by label. Every message field is proved to be a specific other term (client pk, masking key, nonce, tag, masked bytes, MACs).",
+    "assumptions": [A_PRELUDE, "'no secret appears verbatim as a substring of a message' is probabilistic: not decided; mutants that put a secret into a message fail that field's clause"],
+    "hypotheses": [IDEAL + "cf_expand"],
+}
+
+PROPS["C17"] = {
+    "alternatives": [{
+        "name": "functional-contracts",
+        "clauses": star(ALL_FNS), "exclude": SOUND,
+        "theorems": ["thm_c17_server_login_deterministic", "thm_c17_disjoint_segments"],
+    }],
+    "witness": "c17",
+    "explanation": "All postconditions are equalities with spec functions of (arguments, tape id, tape position): identical tapes give identical outputs and the prelude offers no other entropy source (a body calling OsRng/thread_rng would not resolve => undecided). Every random value (blind, envelope nonce, masking nonce, client/server nonces, ephemeral seeds, OPRF seed, key-pair seeds, fake masking key) IS a tape segment (or DeriveKeyPair / scalar_of_tape of one); segments are consecutive and disjoint and the position advances by the stated amounts. The production cfg branch of blind() is what is extracted.",
+    "assumptions": [A_PRELUDE, "'never repeat on independent tapes' beyond being tape segments is probabilistic"],
+}
+
+PROPS["C18"] = {
+    "alternatives": [{
+        "name": "generic-secret-key",
+        "clauses": [(O + "ServerLogin::start", "*"), (O + "ServerSetup::new_with_key", "*"), (O + "ServerSetup::serialize", "*"), (O + "ServerSetup::deserialize", "*"), (O + "ServerSetup::keypair", "*"),
+                    (K + "KeyPair::from_private_key", "*"), (K + "KeyPair::from_private_key_slice", "*"), (T + "derive_3dh_keys", "*"), (T + "TripleDh::generate_ke2", "*"),
+                    (ER + "InternalError::into_custom", "*"), (ER + "ProtocolError::into_custom", "*"), (O + "ServerRegistration::start", "*"),
+                    (K + "PrivateKey::diffie_hellman", "*"), (K + "PrivateKey::public_key", "*"), (K + "PrivateKey::serialize", "*"), (K + "PrivateKey::deserialize", "*")],
+        "theorems": ["thm_c18_transparent"],
+    }],
+    "witness": "c18",
+    "explanation": "The extracted code stays generic in S: SecretKey<KG>; ServerLogin::start's contract is stated over S's Result-valued spec operations: exactly one public_key and one diffie_hellman; on Err(e) the result is Err(LibraryError(e)) and — by the result type — no message or state; for S = PrivateKey the same contract specialises to KG::pk_of / KG::dh of the held scalar (substitution). into_custom's unreachable!() arms are unreachable (precondition proved at every call site).",
+    "assumptions": [A_PRELUDE, "the external key's operations are functions; its clone denotes the same key (axiom_clone_is_identity)"],
+}
+
+C10_THMS = ["thm_c10_registration_request", "thm_c10_registration_response", "thm_c10_registration_upload", "thm_c10_credential_request", "thm_c10_credential_response",
+            "thm_c10_credential_finalization", "thm_c10_server_registration", "thm_c10_server_login", "thm_c10_client_registration", "thm_c10_client_login", "thm_c10_server_setup"]
+VACUITY_THEOREMS |= set(C10_THMS) | {"thm_c13_server_setup_external"}
+
+PROPS["C10"] = {
+    "alternatives": [{
+        "name": "strict-canonical",
+        "clauses": star(DECODERS + ENCODERS + [ER + "check_slice_size", ER + "check_slice_size_atleast", O + "MaskedResponse::deserialize", O + "MaskedResponse::serialize"]),
+        "theorems": C10_THMS + ["thm_c13_server_registration", "thm_c13_client_registration", "thm_c13_client_login", "thm_c13_server_setup", "thm_c03_reload"],
+        "kani": {"quick": [("leaf", "check_slice_size_exact")],
+                 "thorough": [("api", "x25519_sk_decode"), ("api", "x25519_sk_decode_length"), ("api", "x25519_pk_decode_identity"), ("api", "ristretto_decode_length"), ("api", "ristretto_sk_decode")]},
+        "replay": ["c10"],
+    }],
+    "witness": "c10",
+    "explanation": "For each of the eleven decoders a Verus harness decodes an ARBITRARY byte string with the real decoder and re-encodes with the real encoder: accepted bytes re-encode to themselves (one fixed suite-determined length, no trailing bytes, no alias encodings); plus encode-then-decode is the identity (C13 harnesses). Proved parametrically in the suite lengths. Canonical decoding of key-exchange keys is the KeGroup trait contract: Curve25519 proved by Kani over all 2^256 inputs, ristretto255 / NIST wrappers assumed of the dependency and sampled on all 256 tag bytes by the replay crate.",
+    "assumptions": [A_PRELUDE, "KeGroup::deserialize_pk / deserialize_sk are canonical (Kani for Curve25519; dalek / elliptic-curve contract for the others, sampled)", "scalar decoding of the OPRF group is canonical for exact-length input (dependency contract, sampled)"],
+}
+
+PROPS["C11"] = {
+    "alternatives": [{
+        "name": "decoders-only",
+        "clauses": star(DECODERS) + [(K + "PublicKey::deserialize", "*"), (K + "PrivateKey::deserialize", "*"), (K + "KeyPair::from_private_key_slice", "*"), (O + "unmask_response", "*")],
+        "exclude": {"strict"},
+        "kani": {"quick": [("api", "x25519_pk_no_small_order")],
+                 "thorough": [("api", "x25519_sk_decode"), ("api", "x25519_pk_decode_identity"), ("api", "ristretto_pk_decode_rejects_identity"), ("api", "ristretto_sk_decode"), ("api", "ristretto_decode_length"), ("api", "x25519_sk_decode_length")]},
+        "replay": ["c11"],
+    }],
+    "witness": "c11",
+    "explanation": "Group level (Kani on the real KeGroup impls): Curve25519 deserialize_pk never yields the identity or a small-order point (canonical and non-reduced spellings, with and without bit 255), deserialize_sk only clamped non-zero scalars (complete over 2^256); ristretto255 deserialize_pk never yields the identity (decompress stubbed by its contract), deserialize_sk never zero / non-canonical. Message level (Verus): every group-element and scalar field of every message and state is obtained ONLY through those decoders (the `fields` clauses: Some(field) == de_pk / de_sk / de_elem / de_scalar of the corresponding input bytes) plus the explicit identity checks on OPRF elements in login messages (`nonid`).",
+    "assumptions": [A_PRELUDE, "off-curve / non-canonical rejection inside dalek decompress, elliptic-curve from_sec1_bytes, Scalar::from_canonical_bytes is the dependency's contract (sampled by the replay crate)", "NIST KeGroup wrapper (blanket impl in elliptic_curve.rs): not reachable by Kani here (generic over RustCrypto curve types); its identity / range / tag behaviour is sampled exhaustively over the tag byte by the replay crate — testing, not proof",
+                    "serde: hand-written key impls route through the same KG decoders (read); derived impls are generated code (assumed field-wise), exercised by the replay crate"],
+}
+
+PROPS["C12"] = {
+    "alternatives": [{
+        "name": "no-panic-obligations",
+        "clauses": [(ER + "InternalError::into_custom", "*"), (ER + "ProtocolError::into_custom", "*"), (O + "MaskedResponse::deserialize", "*"), (G + "i2osp_2", "*"), (O + "bytestrings_from_identifiers", "*"),
+                    (T + "hkdf_expand_label_extracted", "*"), (T + "TripleDh::generate_ke2", "ctx_err"), (T + "TripleDh::generate_ke3", "ctx_err"), (O + "get_password_derived_key", "len_err"),
+                    (K + "KeyPair::generate_random", "*")],
+        "body_of": "*",
+        "kani": {"quick": [("leaf", "i2osp_u2_exact"), ("leaf", "i2osp_u1_exact"), ("leaf", "input_from_refuses_long"), ("leaf", "check_slice_size_exact")],
+                 "thorough": [("leaf", "input_from_iter_bounded"), ("leaf", "input_owned_iter_bounded"), ("leaf", "input_label_arrays_bounded"), ("leaf", "chain_iter_order_bounded"), ("api", "x25519_sk_decode_length"), ("api", "ristretto_decode_length")]},
+        "replay": ["c12"],
+    }],
+    "witness": "c12",
+    "explanation": "Verus proves, for every extracted function, absence of arithmetic overflow, out-of-range slicing, failed unwrap and reachable unreachable!(), with library panic conditions turned into shim preconditions (clone_from_slice length, slice ranges, from_prk length). MaskedResponse::deserialize (unchecked indexing) is safe because both callers pass exactly Nn+Nh+Npk bytes (precondition proved at both sites). I2OSP refuses every length that does not fit (Kani, complete over usize) so identities/context > 65535 give Err(SerializationError), never truncation; a password > 65535 bytes is refused by the OPRF finalize step. The only loop in extracted code (DeriveKeyPair, 256 iterations) is a bounded `for`.",
+    "assumptions": [A_PRELUDE, "KeyPair::generate_random's unwrap() is reachable only if 256 consecutive hash-to-scalar outputs are zero (precondition `derive_ok`, negligible)", "rejection-sampling loops live in dependencies (assumed to terminate)",
+                    "Curve25519::hash_to_scalar is unimplemented!(): never called by the protocol (no extracted caller references it)"],
+}
+
+PROPS["C13"]["alternatives"][0]["theorems"].append("thm_c13_server_setup_external")
+PROPS["C13"]["alternatives"][0]["replay"] = ["c13", "c18ext"]
+PROPS["C18"]["alternatives"][0]["theorems"].append("thm_c13_server_setup_external")
+
+PROPS["C19"] = {
+    "alternatives": [{
+        "name": "wrappers-and-derivation",
+        "clauses": [(G + "KeGroup::derive_auth_keypair", "*"), (G + "i2osp_2", "*"), (K + "KeyPair::generate_random", "*"), (K + "KeyPair::from_private_key", "*"), (K + "KeyPair::from_private_key_slice", "*"),
+                    (K + "KeyPair::public", "*"), (K + "KeyPair::private", "*"), (K + "PrivateKey::diffie_hellman", "*"), (K + "PrivateKey::public_key", "*"), (K + "PrivateKey::serialize", "*"),
+                    (K + "PrivateKey::deserialize", "*"), (K + "PublicKey::deserialize", "*"), (K + "PublicKey::serialize", "*")],
+        "kani": {"quick": [("api", "x25519_derive_is_clamp")], "thorough": [("api", "x25519_sk_decode"), ("api", "x25519_pk_decode_identity"), ("api", "ristretto_sk_decode")]},
+        "replay": ["c19"],
+    }],
+    "witness": "c19",
+    "explanation": "Proved: the default DeriveDiffieHellmanKeyPair equals RFC 9497 DeriveKeyPair with info 'OPAQUE-DeriveDiffieHellmanKeyPair' and DST 'DeriveKeyPair' || 'OPRFV1-' || 0 || '-' || suite id — loop invariant 'all earlier counters gave zero', first non-zero scalar returned, Err only after 256 zeros (Verus, all suites); Curve25519's derivation == RFC 7748 clamp(seed), non-zero, survives save/reload (Kani, all 2^256 seeds); KeyPair invariant public == public_key(private); PrivateKey / PublicKey wrappers forward to the group unchanged.",
+    "assumptions": [A_PRELUDE, "that scalar multiplication in dalek / p256 / p384 / p521 is a group action (DH symmetry, public-key consistency) and that their canonical codecs round-trip: arithmetic of dependencies, outside the reach of contracts on this repo; sampled by the replay crate incl. scalars 1 and random, all groups"],
 }
 
 NOT_APPLICABLE = {}
